@@ -124,7 +124,7 @@ Definition sch_postc (pc : sch_spc) : Z := match pc with SchSPostC _ => 1 | _ =>
 
 (* the counters and the single-flight flag *)
 Definition sch_invB (s : sch_state) : Prop :=
-  (forall c, (sch_cnt (c, SchTRunning) (sch_tasks s) <= (if sch_running (sch_cks s c) then 1 else 0))%nat) /\
+  (forall c, sch_cnt (c, SchTRunning) (sch_tasks s) = (if sch_running (sch_cks s c) then 1 else 0)%nat) /\
   sch_pcount s = Z.of_nat (sch_live (sch_tasks s)) + sch_postc (sch_pc s) /\
   sch_pcount s + sch_pre (sch_pc s) <= sch_max s.
 
@@ -379,3 +379,45 @@ Proof.
     destruct (sch_wants (sch_force (sch_cks s c)) (sch_cks s c)); (split; [reflexivity|]); eexists; (split; [reflexivity|]);
       cbn [sch_pend sch_idle sch_s_sets]; rewrite sch_mem_insert, Nat.eqb_refl; apply orb_true_r.
 Qed.
+
+(* ---- the running flag can never wedge ----
+   reset points in the code: the FIRST statement of Checkable::ProcessCheckResult clears m_CheckRunning under the
+   ObjectLock, before any early return (null result, agent check, inactive object, result older than the stored one).
+   [SchATaskResult c v] is that entry for the task's own result, accepted or rejected alike (for a rejected result
+   v is the unchanged next_check: the function returns before UpdateNextCheck). *)
+Lemma sch_thm_flag_exact zone next max l s c :
+  0 <= max -> sch_run (sch_init zone next max) l = Some s ->
+  sch_cnt (c, SchTRunning) (sch_tasks s) = (if sch_running (sch_cks s c) then 1 else 0)%nat.
+Proof.
+  intros Hm H. destruct (sch_inv_run l _ _ (sch_invA_init zone next max) (sch_invB_init zone next max Hm) H) as [_ (F & _ & _)].
+  apply F.
+Qed.
+
+Lemma sch_cnt_has x l : (1 <= sch_cnt x l)%nat -> sch_has x l = true.
+Proof.
+  induction l as [|y l IH]; cbn [sch_cnt sch_has existsb]; [lia|]. intros H.
+  destruct (sch_task_eqb x y); [reflexivity|]. cbn [orb]. apply IH. lia.
+Qed.
+
+(* flag set => exactly one execution is in flight, its result-processing step is enabled (whatever the outcome), and
+   that step clears the flag; flag clear => the next test-and-set starts the command *)
+Lemma sch_thm_no_wedge zone next max l s c :
+  0 <= max -> sch_run (sch_init zone next max) l = Some s ->
+  (sch_running (sch_cks s c) = true ->
+     sch_cnt (c, SchTRunning) (sch_tasks s) = 1%nat /\
+     forall v, exists s', sch_exec s (SchATaskResult c v) = Some s' /\ sch_running (sch_cks s' c) = false) /\
+  (sch_running (sch_cks s c) = false -> sch_has (c, SchTUpdated) (sch_tasks s) = true ->
+     exists s', sch_exec s (SchATaskTas c) = Some s' /\ sch_observe s (SchATaskTas c) = [SchEvStart (sch_zid c)]).
+Proof.
+  intros Hm H. pose proof (sch_thm_flag_exact zone next max l s c Hm H) as F. split.
+  - intros R. rewrite R in F. split; [exact F|]. intros v.
+    assert (Hh : sch_has (c, SchTRunning) (sch_tasks s) = true) by (apply sch_cnt_has; lia).
+    unfold sch_exec. rewrite Hh. eexists. split; [reflexivity|].
+    cbn [sch_cks sch_s_tasks sch_s_cks]. rewrite sch_upd_same. reflexivity.
+  - intros R Hh. unfold sch_exec, sch_observe. rewrite Hh, R. eexists. split; reflexivity.
+Qed.
+
+(* every result processing - the step itself, from any state - leaves the flag clear *)
+Lemma sch_thm_result_clears s c v s' :
+  sch_exec s (SchATaskResult c v) = Some s' -> sch_running (sch_cks s' c) = false.
+Proof. intros H. sch_cases H. cbn [sch_cks sch_s_tasks sch_s_cks]. rewrite sch_upd_same. reflexivity. Qed.
